@@ -63,9 +63,8 @@ func (h HelperContext) BlockWith(hc hctx.Context) (string, error) {
 
 	i, err := cc.evalBlockStatement(h.block)
 	if err != nil {
-		var be *blockError
-		if cc.curStmt != nil && !errors.As(err, &be) {
-			err = &blockError{stmt: cc.curStmt, err: err}
+		if cc.curStmt != nil && blockErrorOf(err, cc.program) == nil {
+			err = &blockError{stmt: cc.curStmt, program: cc.program, err: err}
 		}
 		return "", err
 	}
@@ -90,9 +89,27 @@ func (h HelperContext) BlockWith(hc hctx.Context) (string, error) {
 // blockError remembers which statement of a helper's block failed, so that
 // the error is reported at that statement's line.
 type blockError struct {
-	stmt ast.Statement
-	err  error
+	stmt    ast.Statement
+	program *ast.Program // the template the statement belongs to
+	err     error
 }
 
 func (e *blockError) Error() string { return e.err.Error() }
 func (e *blockError) Unwrap() error { return e.err }
+
+// blockErrorOf finds the failing block statement that belongs to program p.
+// An error that comes out of a partial carries the statement of the
+// partial's own template, which says nothing about a line of the caller.
+func blockErrorOf(err error, p *ast.Program) *blockError {
+	for err != nil {
+		var be *blockError
+		if !errors.As(err, &be) {
+			return nil
+		}
+		if be.program == p {
+			return be
+		}
+		err = be.err
+	}
+	return nil
+}
